@@ -78,6 +78,22 @@ pub fn check_serializable(spec: &SetSpec, t: &SVal) -> Verdict {
         Err(p) => return Err(Issue::new("ruleset:evaluate-panic", format!("RuleSet::evaluate panicked: {p}; input {t:?}"))),
     };
     let image = sval::model_image(t);
+    // a ruleset without rules serializes its input all the same: the call as a whole fails iff serialization does
+    let empty = catch(|| block_on(ruleset().build().evaluate(t)).map(|o| o.len()))
+        .map_err(|p| Issue::new("ruleset:evaluate-panic", format!("RuleSet::evaluate of a ruleset without rules panicked: {p}; input {t:?}")))?;
+    match (&image, &empty) {
+        (Image::Error, Ok(_)) => {
+            return Err(Issue::new(
+                "ruleset:evaluate-ignores-serialization-failure",
+                format!("input {t:?} cannot be serialized but RuleSet::evaluate of a ruleset without rules succeeded"),
+            ))
+        }
+        (Image::Val(_), Err(e)) => {
+            return Err(Issue::new("ruleset:evaluate-fails-as-a-whole", format!("input {t:?} is serializable but a ruleset without rules failed: {e}")))
+        }
+        (Image::Val(_), Ok(n)) if *n != 0 => return Err(Issue::new("ruleset:evaluate-differs", format!("a ruleset without rules returned {n} outcomes"))),
+        _ => {}
+    }
     match (&image, &via_t) {
         (Image::Error, Ok(_)) => Err(Issue::new(
             "ruleset:evaluate-ignores-serialization-failure",
@@ -231,6 +247,56 @@ pub fn run(ctx: &Ctx) {
             check(&case)
         },
         |i| SetCase { spec: fixed_spec(&decode(i)), inputs: vec![facts.clone()] }.to_json(),
+        "setcase",
+    );
+
+    // (1a) rules that differ only in a literal's sign of zero / decimal scale, stateless zero-sized user functions called
+    // with one argument, symbols whose names are reserved words or no identifiers at all
+    let twins: Vec<SetCase> = {
+        let f = |x: f64| Expr::Value(Value::Float(x));
+        let mut fns = standard_fns();
+        fns.insert("za".to_string(), me::FnSpec { cacheable: true, fail_on: vec![], fail_first: 0, uncacheable_after: 0 });
+        fns.insert("zb".to_string(), me::FnSpec { cacheable: true, fail_on: vec![], fail_first: 0, uncacheable_after: 0 });
+        let mut symbols = standard_symbols();
+        symbols.insert("val".to_string(), Value::Int(41));
+        symbols.insert("key".to_string(), Value::Int(42));
+        symbols.insert("unit price".to_string(), Value::Int(43));
+        symbols.insert("if".to_string(), Value::Int(44));
+        let rules: Vec<(&str, Expr)> = vec![
+            ("m-pos", Expr::div(f(1.0), f(0.0))),
+            ("c-neg", Expr::div(f(1.0), f(-0.0))),
+            ("x-echo1", Expr::func("fa", Expr::Value(crate::pool::dec(10, 1)))),
+            ("a-echo2", Expr::func("fa", Expr::Value(crate::pool::dec(100, 2)))),
+            ("Q-list", Expr::Vec(vec![f(0.0), Expr::reff("vi")])),
+            ("b-list", Expr::Vec(vec![f(-0.0), Expr::reff("vi")])),
+            ("z-za", Expr::func("za", Expr::reff("vi"))),
+            ("K-zb", Expr::func("zb", Expr::reff("vi"))),
+            ("d-za", Expr::func("za", Expr::reff("vi"))),
+            ("e-syms", Expr::Vec(vec![Expr::symbol("val"), Expr::symbol("key"), Expr::symbol("unit price"), Expr::symbol("if")])),
+            ("f-same", Expr::div(f(1.0), f(0.0))),
+        ];
+        let input = crate::pool::map(&[("vi", Value::Int(5)), ("id", Value::Int(1))]);
+        // every rotation of the rule list (which rule comes first must not matter)
+        (0..rules.len())
+            .map(|r| {
+                let mut rs: Vec<(String, Expr)> = rules.iter().map(|(n, e)| (n.to_string(), e.clone())).collect();
+                rs.rotate_left(r);
+                SetCase { spec: SetSpec { rules: rs, fns: fns.clone(), symbols: symbols.clone(), suspend: 0 }, inputs: vec![input.clone(), input.clone()] }
+            })
+            .collect()
+    };
+    ctx.enumerate(
+        "twin-rules",
+        twins.len() as u64,
+        true,
+        |i, acc| {
+            acc.cell("twin-rules", true);
+            if i == 0 {
+                acc.sample("twin-rules", || twins[0].render());
+            }
+            check(&twins[i as usize])
+        },
+        |i| twins[i as usize].to_json(),
         "setcase",
     );
 
